@@ -32,6 +32,7 @@ import (
 	"github.com/wundergraph/graphql-go-tools/v2/pkg/astparser"
 	"github.com/wundergraph/graphql-go-tools/v2/pkg/astprinter"
 	grpcdatasource "github.com/wundergraph/graphql-go-tools/v2/pkg/engine/datasource/grpc_datasource"
+	"github.com/wundergraph/graphql-go-tools/v2/pkg/engine/plan"
 	"github.com/wundergraph/graphql-go-tools/v2/pkg/grpctest"
 	"github.com/wundergraph/graphql-go-tools/v2/pkg/grpctest/mapping"
 	"github.com/wundergraph/graphql-go-tools/v2/pkg/grpctest/productv1"
@@ -773,6 +774,137 @@ func c20Load(ds *grpcdatasource.DataSource, query, id string) (out string) {
 	return string(b)
 }
 
+// ---- entity lookups: _entities[i] answers representations[i], whatever subset of the fragments is selected ------------------------
+
+func (e *c20Env) loadEntities(query string, variables string) (ents []any, raw string, err error) {
+	defer func() {
+		if r := recover(); r != nil {
+			err = fmt.Errorf("panic: %v", r)
+		}
+	}()
+	doc, rep := astparser.ParseGraphqlDocumentString(query)
+	if rep.HasErrors() {
+		return nil, "", fmt.Errorf("parse: %s", rep.Error())
+	}
+	ds, err := grpcdatasource.NewDataSource(grpcdatasource.NewGRPCTransport(e.conn), grpcdatasource.DataSourceConfig{
+		Operation: &doc, Definition: e.def, SubgraphName: "Products", Compiler: e.compiler, Mapping: e.mapping,
+		FederationConfigs: plan.FederationFieldConfigurations{{TypeName: "Product", SelectionSet: "id"}, {TypeName: "Storage", SelectionSet: "id"}, {TypeName: "Warehouse", SelectionSet: "id"}}})
+	if err != nil {
+		return nil, "", fmt.Errorf("plan: %w", err)
+	}
+	out, err := ds.Load(context.Background(), nil, []byte(fmt.Sprintf(`{"query":%q,"body":{"variables":%s}}`, query, variables)))
+	if err != nil {
+		return nil, string(out), err
+	}
+	var resp struct {
+		Data struct {
+			Entities []any `json:"_entities"`
+		} `json:"data"`
+		Errors []any `json:"errors"`
+	}
+	if err := json.Unmarshal(out, &resp); err != nil {
+		return nil, string(out), err
+	}
+	if len(resp.Errors) > 0 {
+		return nil, string(out), fmt.Errorf("errors: %s", truncate(jsonStr(resp.Errors), 200))
+	}
+	return resp.Data.Entities, string(out), nil
+}
+
+func c20EntityCheck(run *Run, e *c20Env, r *rand.Rand) {
+	// Warehouse is only ever a representation, never a selected fragment: the mock service answers Warehouse lookups one entity short
+	// on purpose.
+	types := []string{"Product", "Storage", "Warehouse"}
+	selectable := []string{"Product", "Storage"}
+	// Storage.location is random in the mock service
+	fieldsOf := map[string][]string{"Product": {"id", "name", "price"}, "Storage": {"id", "name"}}
+	n := 1 + r.Intn(6)
+	var reps []string
+	var kinds []string
+	for i := 0; i < n; i++ {
+		t := types[r.Intn(len(types))]
+		kinds = append(kinds, t)
+		reps = append(reps, fmt.Sprintf(`{"__typename":%q,"id":"%d"}`, t, 1+r.Intn(9)))
+	}
+	variables := `{"representations":[` + strings.Join(reps, ",") + `]}`
+	chosen := map[string]string{}
+	for _, t := range selectable {
+		fs := []string{"__typename"}
+		for _, f := range fieldsOf[t] {
+			if r.Intn(3) > 0 {
+				if r.Intn(4) == 0 {
+					f = "a_" + f + ": " + f
+				}
+				fs = append(fs, f)
+			}
+		}
+		r.Shuffle(len(fs), func(i, j int) { fs[i], fs[j] = fs[j], fs[i] })
+		chosen[t] = strings.Join(fs, " ")
+	}
+	frag := func(ts []string) string {
+		var fs []string
+		for _, t := range ts {
+			fs = append(fs, "... on "+t+" { "+chosen[t]+" }")
+		}
+		return `query($representations: [_Any!]!) { _entities(representations: $representations) { ` + strings.Join(fs, " ") + ` } }`
+	}
+	in := map[string]any{"entities": true, "representations": json.RawMessage("[" + strings.Join(reps, ",") + "]")}
+	full, rawFull, err := e.loadEntities(frag(selectable), variables)
+	if err != nil {
+		run.Violate(Violation{Kind: "oracle", Clause: "entities_answer", Input: in, Impl: rawFull, Detail: fmt.Sprintf("the lookup with every fragment fails: %v", err)}, "")
+		return
+	}
+	if len(full) != n {
+		run.Violate(Violation{Kind: "oracle", Clause: "entities_positional", Input: in, Impl: rawFull, Detail: fmt.Sprintf("%d representations, %d entities: %s", n, len(full), truncate(rawFull, 500))}, "")
+		return
+	}
+	for i, ent := range full {
+		m, _ := ent.(map[string]any)
+		if kinds[i] == "Warehouse" {
+			if ent == nil {
+				continue
+			}
+		} else if m != nil && m["__typename"] == kinds[i] && (fmt.Sprint(m["id"]) == c20RepID(reps[i]) || fmt.Sprint(m["a_id"]) == c20RepID(reps[i]) || (m["id"] == nil && m["a_id"] == nil)) {
+			continue
+		}
+		{
+			run.Violate(Violation{Kind: "oracle", Clause: "entities_positional", Input: in, Impl: rawFull, Detail: fmt.Sprintf("entity %d answers a %s representation with %s", i, kinds[i], truncate(jsonStr(ent), 200))}, "")
+			return
+		}
+	}
+	// every non-empty proper subset of the fragments, in both orders
+	for _, sel := range [][]string{{"Product"}, {"Storage"}, {"Storage", "Product"}} {
+		sub, rawSub, err := e.loadEntities(frag(sel), variables)
+		if err != nil {
+			run.Violate(Violation{Kind: "oracle", Clause: "entities_answer", Input: map[string]any{"entities": true, "representations": in["representations"], "fragments": sel}, Impl: rawSub, Detail: fmt.Sprintf("the lookup with fragments %v fails: %v", sel, err)}, "")
+			return
+		}
+		ok := len(sub) == n
+		for i := 0; ok && i < n; i++ {
+			if containsStr(sel, kinds[i]) {
+				ok = fedJSONEqual(sub[i], full[i])
+			} else {
+				ok = sub[i] == nil
+			}
+		}
+		if !ok {
+			run.Violate(Violation{Kind: "oracle", Clause: "entities_stable_under_subset_selection", Input: map[string]any{"entities": true, "representations": in["representations"], "fragments": sel}, Impl: rawSub, Model: rawFull,
+				Detail: fmt.Sprintf("with fragments %v the lookup answers %s; with every fragment %s: selecting a subset must keep every selected entity at its position and leave null elsewhere", sel, truncate(rawSub, 500), truncate(rawFull, 500))}, "")
+			return
+		}
+	}
+	run.Feat("entity_lookup")
+	run.mu.Lock()
+	run.TracesVsImpl++
+	run.mu.Unlock()
+}
+
+func c20RepID(rep string) string {
+	var m map[string]any
+	_ = json.Unmarshal([]byte(rep), &m)
+	return fmt.Sprint(m["id"])
+}
+
 // the answer for (operation, variables) does not depend on what the datasource served before
 func c20ReuseCheck(run *Run, e *c20Env, r *rand.Rand) {
 	q := c20ReuseQueries[r.Intn(len(c20ReuseQueries))]
@@ -809,7 +941,7 @@ func runC20(run *Run, replay string) Spec {
 		Level:       "translation_validation",
 		Rule:        "21 deterministic root fields of the mock product service (objects, lists, nested lists, nullable fields, enums, interfaces, unions, recursive types) × generated selection trees × 3 formulations each (subset, aliases, reordering, duplicated leaves, a field split into two occurrences with partial selections, inline fragments on the same type, per-type fragments of abstract types): the datasource's answer = projection, by the Lean reference executor, of the service data (the answer to the canonical alias-free superset with __typename and all scalars); every value has the kind its declared type demands; sequences of 3–6 requests with different variables on ONE datasource answer like fresh datasources. non-trivial = cases with an abstract type or a split / aliased field; distinct = distinct (root, tree)",
 		TrustedBase: []string{"the Lean reference executor GqlVerif.Gql.Exec as the projection (CollectFields, field merging, fragment applicability, aliases)", "the repository's mock service, proto schema, default mapping and compiler", "the canonical superset's answer as the service data"},
-		Assumptions: []string{"fields with arguments below the root (field resolvers), entity lookups, mutations and the two random root fields are not exercised", "every operation passes the repository's normalizer (fragment inlining, field merging, variable extraction) before it reaches the datasource, as on the engine's path; duplicated and split fields and same-type fragments therefore reach the datasource merged"},
+		Assumptions: []string{"fields with arguments below the root (field resolvers with arguments), mutations and the two random root fields are not exercised; entity lookups only for Product / Storage / Warehouse with id and name", "every operation passes the repository's normalizer (fragment inlining, field merging, variable extraction) before it reaches the datasource, as on the engine's path; duplicated and split fields and same-type fragments therefore reach the datasource merged"},
 	}
 	e, err := c20Setup()
 	if err != nil {
@@ -882,6 +1014,9 @@ func runC20(run *Run, replay string) Spec {
 				}
 				if k%10 == 0 {
 					c20ReuseCheck(run, e, r)
+				}
+				if k%10 == 5 {
+					c20EntityCheck(run, e, r)
 				}
 				run.SetCurrent(w, c)
 				c20Check(run, e, c)
